@@ -19,8 +19,9 @@ def check(run):
         "can-issue policies; each run through validator.Access and through the Coq model (verdict, path, verifications, checker and "
         "Derives logs compared)")
     run.assumptions += [
-        "symbolic signatures: the harness tells the model which key produced each token's signature over its current fields (construction knowledge, not an observation of the implementation)",
-        "links are numbered CIDs: SHA-256 collision freedom",
+        "symbolic signatures: which key produced each token's signature over its current fields is rendered by the harness and CHECKED by the token-view obligation against what ucan.VerifySignature was observed to accept for every key of the cast (unforgeability itself is assumed)",
+        "every field of every token the model is given (issuer, audience, capabilities, caveats, proofs, exp, nbf, signature code) is checked to be view_block(token_decode_typed(root block bytes)) — TokenBytes.v / TokenView.v; floats are outside the Coq data model",
+        "links are numbered CIDs: SHA-256 collision freedom; the numbering of each world is checked to be an injective function of the CID bytes",
         "Hres: the proof resolver returns the delegation whose link was asked for",
         "caller-supplied functions (can-issue, checker, resolvers, parser, capability readers and Derives) are the mirrored Go/Gallina pairs of harness/world.go and coq/Check_Validator.v"]
 
